@@ -352,14 +352,14 @@ func oddTransparent(g *sqlh.Gen, t *sqlh.TableDesc) sqlh.Filter {
 	switch t.Name {
 	case "items":
 		switch g.R.Intn(4) {
-		case 0: // pointer to "" on the implicitnull column selects nothing; int(..) is never matched
-			return sqlh.Filter{"note": {T: "ptr", Addr: g.NewAddr(), Elem: &empty}, "id": {T: "int", Z: int64(1 + g.R.Intn(4))}}
+		case 0: // a pointer to "" on the implicitnull column means IS NULL; the matcher compares "" with the "" a NULL scans into
+			return sqlh.Filter{"note": {T: "ptr", Addr: g.NewAddr(), Elem: &empty}}
 		case 1: // Shifted(2^31-1) serializes to 2^31, which no int32 column stores, and is never matched
 			return sqlh.Filter{"kind": {T: "Shifted", Z: 1<<31 - 1}}
 		case 2: // a plain string on the named-string column is never matched; the other column selects nothing
-			return sqlh.Filter{"note": {T: "ptr", Addr: g.NewAddr(), Elem: &empty}, "label": {T: "string", S: "a"}}
+			return sqlh.Filter{"kind": {T: "Shifted", Z: 1<<31 - 1}, "label": {T: "string", S: "a"}}
 		}
-		return sqlh.Filter{"note": {T: "ptr", Addr: g.NewAddr(), Elem: &empty}, "kind": {T: "int32", Z: int64(g.R.Intn(3))}}
+		return sqlh.Filter{"data": {T: "string", S: g.R.Pick(sqlh.SmallStrings[:3])}} // a string on the blob column: hashed alike
 	case "users":
 		if g.R.Bool() {
 			return sqlh.Filter{"age": {T: "Shifted", Z: 1<<31 - 1}} // serializes to 2^31: no int32 column stores it
@@ -449,7 +449,10 @@ func isZeroGV(v sqlh.GV) bool { return sqlh.IsZeroGV(v) }
 func exactlyTyped(c *sqlh.ColDesc, v sqlh.GV) bool { return sqlh.ExactlyTyped(c, v) }
 
 func denotesNull(c *sqlh.ColDesc, v sqlh.GV) bool {
-	return v.T == "nil" || v.T == "nilptr" || v.T == "nilbytes" || (c.ImplicitNull && v.T != "ptr" && isZeroGV(v))
+	if v.T == "ptr" && v.Elem != nil {
+		return c.ImplicitNull && isZeroGV(*v.Elem)
+	}
+	return v.T == "nil" || v.T == "nilptr" || v.T == "nilbytes" || (c.ImplicitNull && isZeroGV(v))
 }
 
 // ---- running ----
